@@ -282,8 +282,12 @@ func genJournal(r *rng, o genOpts) Journal {
 	}
 	var j Journal
 	d0 := o.startDate
+	early := 0 // accrual windows may start before the first transaction: open and price earlier
+	if o.accruals {
+		early = 110
+	}
 	for _, a := range accounts {
-		j = append(j, Dir{Kind: 'O', Date: dateStr(d0.AddDate(0, 0, -r.intn(3))), Acc: a})
+		j = append(j, Dir{Kind: 'O', Date: dateStr(d0.AddDate(0, 0, -early-r.intn(3))), Acc: a})
 	}
 	coms := o.commodities
 	if o.prices {
@@ -299,7 +303,7 @@ func genJournal(r *rng, o genOpts) Journal {
 			n := 1 + r.intn(6)
 			base := float64(r.rangeInt(50, 30000)) / 100
 			for k := 0; k < n; k++ {
-				dt := d0.AddDate(0, 0, -3)
+				dt := d0.AddDate(0, 0, -early-3)
 				if k > 0 {
 					dt = d0.AddDate(0, 0, r.intn(o.days))
 				}
@@ -345,6 +349,9 @@ func genJournal(r *rng, o genOpts) Journal {
 		if o.accruals && r.chance(12) && accrualAcc != "" {
 			ivs := []string{"daily", "weekly", "monthly", "quarterly"}
 			s := dt.AddDate(0, r.rangeInt(-2, 2), r.rangeInt(-10, 10))
+			if s.Before(d0.AddDate(0, 0, -100)) {
+				s = d0.AddDate(0, 0, -100)
+			}
 			e := s.AddDate(0, r.rangeInt(0, 5), r.rangeInt(0, 20))
 			iv := pick(r, ivs)
 			if iv == "daily" {
